@@ -86,3 +86,20 @@ package dashboards
 //@   site call writeFolderStructure #1:
 //@     assert [the-structure-written-back-carries-the-new-name] item.Name == dName && implies(ghost(0, "dashStored") == 1, ghost(0, "dashStoredName") == dName)
 //@ end
+
+// C20 (a deleted object stays deleted): deleting a folder removes the details
+// file of every dashboard below it.  Which of the collected items are dashboards
+// is read from the folder structure, so that lookup happens while the items are
+// still IN the structure (after their removal every lookup yields an empty item
+// and no file would be deleted: the dashboards would stay readable by id).
+// Ghost dfItemsRemoved: the removal from the structure has started.
+//@ ghostdecl dfItemsRemoved int
+//@ func deleteFolder
+//@   props C20
+//@   assumecalleerequires
+//@   ghostinit ghost(0, "dfItemsRemoved") == 0
+//@   site mapread structure.Items[itemID] #1:
+//@     assert [an-items-type-is-read-while-it-is-still-in-the-structure] ghost(0, "dfItemsRemoved") == 0
+//@   site call delete #1:
+//@     ghostset ghost(0, "dfItemsRemoved") = 1
+//@ end
